@@ -262,6 +262,7 @@ var c18cfg = zapcore.EncoderConfig{
 	MessageKey:     "M",
 	LevelKey:       "L",
 	NameKey:        "N",
+	StacktraceKey:  "S", // the handler's default AddStacktraceAt(Error): last member of the top-level object
 	LineEnding:     "\n",
 	EncodeLevel:    zapcore.LowercaseLevelEncoder,
 	EncodeTime:     zapcore.EpochNanosTimeEncoder,
@@ -314,6 +315,20 @@ func c18decodeLine(line []byte, name string) (lvl int, msg, logger string, tree 
 	}
 	if msg, err = take("M"); err != nil {
 		return 0, "", "", nil, err
+	}
+	if lvl == 2 {
+		// records at slog.LevelError and above carry the stack trace: a string under StacktraceKey, written
+		// after every open group has been closed, so it is the last member of the top-level object and no
+		// group holds it (a stack trace inside a group is a member that is not one of the group's attributes)
+		if len(kvs) == 0 {
+			return 0, "", "", nil, fmt.Errorf("error-level record without a top-level stack trace")
+		}
+		kv := kvs[len(kvs)-1].(sl).l
+		leaf, ok := kv[1].(sb)
+		if string(kv[0].(sb).b) != "S" || !ok || len(leaf.b) == 0 || leaf.b[0] != '"' {
+			return 0, "", "", nil, fmt.Errorf("error-level record: last top-level member is %q, not the stack trace", kv[0].(sb).b)
+		}
+		kvs = kvs[:len(kvs)-1]
 	}
 	return lvl, msg, logger, L(kvs...), nil
 }
